@@ -19,7 +19,7 @@ structure HCfg where
   deaths : List (Bytes × Nat) := []
   slowDelay : Option Nat := none
   slowChunk : Nat := 32
-  deriving Repr, BEq, DecidableEq, Inhabited
+  deriving Repr, DecidableEq, Inhabited
 
 structure Handle where
   slot : Slot
@@ -49,7 +49,7 @@ inductive Res where
   | new (h : Nat)               -- id of the handle created
   | cfg (c : HCfg)
   | badop
-  deriving Repr, BEq, Inhabited
+  deriving Repr, DecidableEq, Inhabited
 
 structure St where
   handles : List Handle := [{ slot := .io, cfg := {} }]
@@ -59,10 +59,14 @@ structure St where
   deriving Repr, Inhabited
 
 def setSlot (hs : List Handle) (h : Nat) (s : Slot) : List Handle :=
-  hs.mapIdx fun i x => if i == h then { x with slot := s } else x
+  match hs[h]? with
+  | some x => hs.set h { x with slot := s }
+  | none => hs
 
 def setCfg (hs : List Handle) (h : Nat) (f : HCfg → HCfg) : List Handle :=
-  hs.mapIdx fun i x => if i == h then { x with cfg := f x.cfg } else x
+  match hs[h]? with
+  | some x => hs.set h { x with cfg := f x.cfg }
+  | none => hs
 
 /-- one call; returns what the caller sees -/
 def step (s : St) (op : Op) : Res × St :=
